@@ -33,6 +33,19 @@ CLAIMS = {
         note=TB + "Dataclass equality of action objects is trusted.",
         technique="Lean 4 theorems by list induction over a regenerated inv table + differential correspondence",
         ref="§3 C02"),
+    "C05": dict(
+        text="The three gen copies are modelled by one function applied to the shape of each copy, read from the source by ast "
+             "on every run (where the spec comes from, which flag each isinstance branch sets, the permute_values operands, the "
+             "conditional reverse_path, which tone list feeds which Path field). Theorems: with the shapes the code has now the "
+             "plain route, the spec-carrying route and constant folding compute the same result for every task, argument split "
+             "and keyword order (C05_routes_agree); any returned path is the specified one (tones of the device function, kernel "
+             "trace on the arguments in signature order, reversed for reversed tasks); permute_values is Python's binding rule; "
+             "no spec / non-device callee / failing kernel => no route returns a path (C05_no_path_when_unavailable); folding "
+             "needs constant operands. Tie: the three real implementations exercised in isolation on generated kernels and calls.",
+        note=TB + "The kernel is abstracted as a trace function (its own correctness is C01); kirin's const-propagation framework "
+                  "and interpreter are exercised, not verified.",
+        technique="Lean 4 theorems over ast-regenerated shapes of the three copies + three-route differential correspondence",
+        ref="§3 C05"),
     "C11": dict(
         text="Theorems: every path the tracer model returns satisfies the well-formedness recogniser WF (invariant by "
              "induction over arbitrary operation sequences), and reversal preserves WF (forward/backward automaton gluing "
